@@ -2,7 +2,7 @@
 from fractions import Fraction
 from .common import Check, correspond, canon, I64MIN, I64MAX
 
-THEOREMS = {'C18': []}
+THEOREMS = {'C18': ['Cctz.C18.split_floor', 'Cctz.C18.split_ok', 'Cctz.C18.join_coarse', 'Cctz.C18.join_rep', 'Cctz.C18.femto']}
 
 # (N, D, rep tag, rep min, rep max)
 PANEL = [(1, 10**9, 'i64', I64MIN, I64MAX), (1, 10**6, 'i64', I64MIN, I64MAX), (1, 10**3, 'i64', I64MIN, I64MAX),
